@@ -927,5 +927,8 @@ func runC12(c *Ctx) {
 	if c12Part("local") {
 		runC12Local(c)
 	}
+	if c12Part("float") {
+		runC12Float(c)
+	}
 
 }
